@@ -7,6 +7,7 @@ import (
 	"fmt"
 	"runtime"
 	"strings"
+	"sync"
 	"testing"
 	"testing/synctest"
 	"time"
@@ -52,6 +53,12 @@ type scenario struct {
 	rel    int
 	faults [][]fault // per peer, per attempt (beyond: none)
 	grows  [][]grow  // per peer
+	// gone > 0: a peer leaves after the session took its snapshot of the tracked peers and before it is popped.
+	// Every peer asked at the start answers its first request late (2 s) and short (cut headers); when the first of
+	// these answers is due, the one peer that has not been asked yet is disconnected and unlinked from the client. It
+	// is still in the session's queue, with the default score, ahead of the slow peers: it is popped for the remainder.
+	gone int
+	cut  int
 }
 
 type backend struct {
@@ -155,6 +162,9 @@ func obsTerm(reg *vhdr.Registry, chain []H, n uint64, o sess.Obs) string {
 func runRange(t *testing.T, w *emit.Writer, reg *vhdr.Registry, chain []H, sc scenario, drift time.Duration) {
 	var o sess.Obs
 	var log []sess.Event
+	var gmu sync.Mutex
+	asked := map[int]bool{}
+	left := -1
 	synctest.Test(t, func(t *testing.T) {
 		wd := sess.NewWorld(t, len(sc.avail), sc.chunk, reqTO, "a", synctest.Wait)
 		var bs []*backend
@@ -168,6 +178,26 @@ func runRange(t *testing.T, w *emit.Writer, reg *vhdr.Registry, chain []H, sc sc
 			}
 			wd.Proxy(i, wd.Backends[i], sess.ProxyHooks{
 				Before: func(att int) {
+					if sc.gone > 0 && att == 0 {
+						gmu.Lock()
+						asked[i] = true
+						gmu.Unlock()
+						time.Sleep(2 * time.Second)
+						gmu.Lock()
+						if left < 0 {
+							for v := range sc.avail {
+								if !asked[v] {
+									left = v
+									break
+								}
+							}
+							if left >= 0 {
+								_ = wd.Net.DisconnectPeers(wd.Client.ID(), wd.Peers[left].ID())
+								_ = wd.Net.UnlinkPeers(wd.Client.ID(), wd.Peers[left].ID())
+							}
+						}
+						gmu.Unlock()
+					}
 					for _, g := range gs {
 						if g.attempt == att {
 							b.growTo(t, chain, g.to)
@@ -176,6 +206,9 @@ func runRange(t *testing.T, w *emit.Writer, reg *vhdr.Registry, chain []H, sc sc
 				},
 				Avail: func() uint64 { return b.head },
 				Fault: func(att, n int) (int, sess.Tail, string) {
+					if sc.gone > 0 && att == 0 && n > 1 {
+						return 1 + sc.cut%(n-1), sess.TClose, "short"
+					}
 					if att >= len(fs) || fs[att].kind == "" {
 						return n, sess.TClose, ""
 					}
@@ -198,6 +231,13 @@ func runRange(t *testing.T, w *emit.Writer, reg *vhdr.Registry, chain []H, sc sc
 		}
 		wd.Close()
 	})
+	if sc.gone > 0 {
+		// the peer whose answers are never empty: one that was asked at the start
+		if len(log) > 0 {
+			sc.rel = log[0].Peer
+		}
+		w.Count("peer_left_before_pop", fmt.Sprintf("peers=%d left=%v result=%s", len(sc.avail), left >= 0, o.Kind))
+	}
 	top := uint64(0)
 	for _, a := range sc.avail {
 		top = max(top, a)
@@ -246,6 +286,9 @@ func runRange(t *testing.T, w *emit.Writer, reg *vhdr.Registry, chain []H, sc sc
 		rel = fmt.Sprintf("%dx", sc.amount/sc.chunk)
 	}
 	class := fmt.Sprintf("p%d/c%d/len%s/%s/%s", len(sc.avail), sc.chunk, rel, shape, o.Kind)
+	if sc.gone > 0 {
+		shape += "/left"
+	}
 	grew := false
 	for _, gs := range sc.grows {
 		grew = grew || len(gs) > 0
@@ -457,12 +500,44 @@ func TestC18(t *testing.T) {
 		scs = append(scs, scenario{name: fmt.Sprintf("prefix+full-c%d-l%d", c.chunk, c.amount), chunk: c.chunk, from: 3, amount: c.amount,
 			avail: []uint64{3 + c.amount/2, 3 + c.amount, 2}, rel: 1, faults: [][]fault{{{"timeout", 1}}, nil, {{"disconnect", 0}}}})
 	}
+	// a peer that leaves between the session's snapshot and its pop: 2 peers / one request (the remainder of the
+	// first chunk goes to the peer that left), 3 peers / two requests (remainders of both chunks)
+	for _, c := range []struct {
+		peers         int
+		chunk, amount uint64
+	}{{2, 4, 4}, {2, 8, 5}, {2, 64, 5}, {2, 3, 2}, {3, 4, 8}, {3, 2, 4}, {3, 6, 9}, {3, 5, 10}} {
+		for cut := 0; cut < 2; cut++ {
+			sc := scenario{name: fmt.Sprintf("left-before-pop-p%d-c%d-l%d-cut%d", c.peers, c.chunk, c.amount, cut), chunk: c.chunk, from: 3,
+				amount: c.amount, gone: c.peers, cut: cut}
+			for p := 0; p < c.peers; p++ {
+				sc.avail = append(sc.avail, 3+c.amount+uint64(p))
+				sc.faults = append(sc.faults, nil)
+			}
+			scs = append(scs, sc)
+		}
+	}
 	n := 150
 	maxChunk := 24
 	if emit.Thorough() {
 		n = 3000
 		maxChunk = 64
 		w.Exhaustive = true
+		for chunk := uint64(2); chunk <= 16; chunk++ {
+			for cut := 0; cut < int(chunk)-1; cut += 1 + int(chunk)/4 {
+				for _, np := range []int{2, 3} {
+					amount := chunk
+					if np == 3 {
+						amount = 2 * chunk
+					}
+					sc := scenario{name: fmt.Sprintf("left-before-pop-sweep-p%d-c%d-cut%d", np, chunk, cut), chunk: chunk, from: 2, amount: amount, gone: np, cut: cut}
+					for p := 0; p < np; p++ {
+						sc.avail = append(sc.avail, 2+amount+uint64(p))
+						sc.faults = append(sc.faults, nil)
+					}
+					scs = append(scs, sc)
+				}
+			}
+		}
 		for chunk := uint64(1); chunk <= 64; chunk++ {
 			var lens []uint64
 			if chunk <= 12 {
